@@ -119,6 +119,7 @@ import (
 	"sort"
 	"strings"
 	"sync"
+	"sync/atomic"
 	"testing"
 	"time"
 
@@ -588,7 +589,8 @@ func (tr *vsTraj) take(m *certManager, inc int) *vsSample {
 func vsTrajectory(t *testing.T, tape *simrt.Tape, g simrt.Gen, o *common.Outcome) {
 	tr := &vsTraj{o: o, byRaw: map[string]int{}, byNB: map[int64]int{}, byHash: map[string]int{}}
 	finished := false
-	restarts := 0
+	restarts, jumps := 0, 0
+	lateRolled := false // a roll-over that was late because of a clock jump has been passed
 	trouble := func(format string, a ...any) {
 		if o.Trouble == "" {
 			o.Trouble = fmt.Sprintf(format, a...)
@@ -610,6 +612,8 @@ func vsTrajectory(t *testing.T, tape *simrt.Tape, g simrt.Gen, o *common.Outcome
 		maxRoll := g.Range(0, 6)
 		nSteps := g.Range(1, 14)
 		nRestarts := g.Weighted(4, 3, 1)
+		// fault stratum drawn apart (0 = fault free): forward jumps of the wall clock against the manager's timers
+		jumpy := g.Chance(1, 3)
 		restartBefore := map[int]int{}
 		for i := 0; i < nRestarts; i++ {
 			restartBefore[g.Int(nSteps+1)]++
@@ -617,10 +621,12 @@ func vsTrajectory(t *testing.T, tape *simrt.Tape, g simrt.Gen, o *common.Outcome
 
 		// Anchor discovery (planning only): a throw-away incarnation tells where the next roll-over instant of
 		// this key lies and how long a period is. Its certificates also feed the determinism oracle.
-		cl := clock.New()
+		var off atomic.Int64
+		tr.off = &off
+		cl := vsJumpClock{Clock: clock.New(), off: &off}
 		probe, err := newCertManager(priv, cl)
 		if err != nil {
-			o.Violate("C18/start-failed", "newCertManager at %s: %v", tr.rel(time.Now()), err)
+			o.Violate("C18/start-failed", "newCertManager at %s: %v", tr.rel(tr.wall()), err)
 			return
 		}
 		pl := probe.GetConfig().Certificates[0].Leaf
@@ -636,12 +642,14 @@ func vsTrajectory(t *testing.T, tape *simrt.Tape, g simrt.Gen, o *common.Outcome
 		start, sdesc := vsDrawStart(g, o, R, period)
 		o.Logf("start at %s = %s", tr.rel(start), sdesc)
 		fmt.Fprintf(&tr.sig, "start=%d", start.Sub(R))
-		if d := time.Until(start); d > 0 {
+		if d := start.Sub(tr.wall()); d > 0 {
 			simrt.TimeSleep(d)
 		}
+		tr.model = &vsLateModel{R: R, period: period}
+		tr.model.arm(tr.wall())
 		m, err := newCertManager(priv, cl)
 		if err != nil {
-			o.Violate("C18/start-failed", "newCertManager at %s: %v", tr.rel(time.Now()), err)
+			o.Violate("C18/start-failed", "newCertManager at %s: %v", tr.rel(tr.wall()), err)
 			return
 		}
 		defer func() {
@@ -658,7 +666,7 @@ func vsTrajectory(t *testing.T, tape *simrt.Tape, g simrt.Gen, o *common.Outcome
 		for step := 0; step <= nSteps; step++ {
 			// stop + restart (only the key survives)
 			for k := 0; k < restartBefore[step]; k++ {
-				closedAt := time.Now()
+				closedAt := tr.wall()
 				m.Close()
 				m = nil
 				W := tr.certs[cur.cert].na.Add(-vsSkew)
@@ -688,10 +696,10 @@ func vsTrajectory(t *testing.T, tape *simrt.Tape, g simrt.Gen, o *common.Outcome
 				if gap > 0 {
 					simrt.TimeSleep(gap)
 				}
-				cl = clock.New()
+				tr.model.arm(tr.wall())
 				m, err = newCertManager(priv, cl)
 				if err != nil {
-					o.Violate("C18/start-failed", "newCertManager (restart) at %s: %v", tr.rel(time.Now()), err)
+					o.Violate("C18/start-failed", "newCertManager (restart) at %s: %v", tr.rel(tr.wall()), err)
 					return
 				}
 				inc++
@@ -724,10 +732,36 @@ func vsTrajectory(t *testing.T, tape *simrt.Tape, g simrt.Gen, o *common.Outcome
 				break
 			}
 
+			now := tr.wall()
+			// fault: the wall clock steps forward while the manager's timers do not (suspend / VM pause / clock step)
+			if jumpy && g.Chance(1, 4) {
+				J := vsJumpSizes[g.Int(len(vsJumpSizes))]
+				off.Add(int64(J))
+				tr.model.late += J
+				tr.jumpSincePrev = true
+				jumps++
+				o.Fault("clock-jump-forward")
+				switch {
+				case J > period:
+					o.Probe("clock-jump-longer-than-a-period")
+				case J > vsSkew:
+					o.Probe("clock-jump-longer-than-skew")
+				}
+				o.Logf("step %d: WALL CLOCK JUMPS FORWARD by %s at %s (pending roll-over timer now %s late: due %s, fires %s)",
+					step, J, tr.rel(now), tr.model.late, tr.rel(tr.model.armedW), tr.rel(tr.model.fires()))
+				fmt.Fprintf(&tr.sig, "|J%d", J)
+				if cur = tr.take(m, inc); cur == nil {
+					return
+				}
+				continue
+			}
+
 			// advance to the next sampling instant
-			now := time.Now()
 			c := tr.certs[cur.cert]
 			W := c.na.Add(-vsSkew) // documented roll-over instant of the served certificate
+			if cur.overdue {
+				W = tr.model.fires() // the interesting instant is now the one at which the late timer fires
+			}
 			if !W.After(now) {
 				W = now.Add(period) // only reachable when an oracle has already fired
 			}
@@ -756,6 +790,12 @@ func vsTrajectory(t *testing.T, tape *simrt.Tape, g simrt.Gen, o *common.Outcome
 			cur = tr.take(m, inc)
 			if cur == nil {
 				return
+			}
+			if lateRolled && cur.cert != prev.cert && !prev.overdue && !cur.overdue {
+				o.Probe("rollover-after-a-late-one-observed")
+			}
+			if prev.overdue && !cur.overdue {
+				lateRolled = true
 			}
 			switch cur.at.Sub(W) {
 			case 0:
@@ -810,6 +850,7 @@ func vsTrajectory(t *testing.T, tape *simrt.Tape, g simrt.Gen, o *common.Outcome
 	if restarts > 0 {
 		o.Probe("restarted")
 	}
+	_ = jumps
 	// non-trivial: at least two samples and (a roll-over observed or a restart executed)
 	o.Nontrivial = len(tr.samples) >= 2 && (rollsTotal > 0 || restarts > 0)
 }
